@@ -327,6 +327,14 @@ def _channel_action(role, action):
             E.prove('request:exactly_one_REQUEST_N_with_exactly_n',
                     len(em) == 1 and is_frame(em[0][2][0], 'RequestNFrame') and E.getattr(em[0][2][0], 'stream_id') is sid
                     and E.getattr(em[0][2][0], 'request_n') is n)
+            # frames handed to the socket wait in the send queue: a later request must not change an earlier one
+            n2 = E.fresh_int('n2', 1, 0x7FFFFFFF)
+            E.call(E.getattr(h, 'request'), [n2])
+            em = c.emissions()
+            E.prove('request:a_later_request_leaves_the_queued_REQUEST_N_untouched[each credit transmitted with exactly its value]',
+                    len(em) == 2 and em[1][2][0] is not em[0][2][0] and E.getattr(em[0][2][0], 'request_n') is n
+                    and is_frame(em[1][2][0], 'RequestNFrame') and E.getattr(em[1][2][0], 'request_n') is n2
+                    and E.getattr(em[1][2][0], 'stream_id') is sid)
         else:
             E.call(E.getattr(h, 'dispose'), [])
             E.cover('disposed')
